@@ -121,15 +121,13 @@ def unit_C02(src, model='R', dims=(2, 3, 4)):
 
 def unit_C04(src, model='R'):
     u = Unit('C04', src, model)
-    lib = SpecLib()
-    F = c_vector.build(lib)
-    c_point.build(lib, F)
-    c_quat.build(lib, F)
-    u.spec_texts.append(lib.text())
-    u.contract_fns += [c_quat.contracts, c_point.contracts, c_vector.contracts]
-    c_vector.select_c03(u)
-    c_point.select_c12(u)
-    c_quat.select_c04(u)
+    lib, F = complete_base(u, 'Rad')
+    own = lambda im, f: im is not None and im.module == 'quaternion' and (
+        trait_name_of(im) in (None, 'Clone', 'PartialEq', 'Zero', 'One', 'VectorSpace', 'MetricSpace', 'InnerSpace', 'Neg', 'Add', 'Sub', 'Mul', 'Div', 'Rem',
+                              'AddAssign', 'SubAssign', 'MulAssign', 'DivAssign', 'RemAssign', 'Rotation')
+        and f.name in ('new', 'from_sv', 'conjugate', 'clone', 'eq', 'zero', 'one', 'lerp', 'distance2', 'dot', 'magnitude2', 'neg', 'add', 'sub', 'mul', 'div', 'rem',
+                       'add_assign', 'sub_assign', 'mul_assign', 'div_assign', 'rem_assign', 'rotate_vector', 'invert', 'rotate_point'))
+    u.assume_pred = lambda im, f: not own(im, f)
     u.lemma_texts.append(sym.HELPER_LEMMAS)
     add_laws(u, c_quat.laws(F))
     return u
@@ -177,6 +175,38 @@ def full_base(u, angle_kind='Rad'):
     return lib, F
 
 
+def complete_base(u, angle_kind='Rad'):
+    """every contract family that needs no per-instantiation substitution (all but Decomposed, look_*, approx, projection):
+    used by units that want any call into the crate to resolve (an un-contracted callee is exit 2, never an alarm)"""
+    lib, F = full_base(u, angle_kind)
+    c_conv.build(lib, F)
+    u.spec_texts.append(lib.text())
+    u.spec_texts.append(c_conv.text_specs())
+    u.spec_texts.append(c_metric.text_specs())
+    u.spec_texts.append(c_arc.text_specs())
+    rh, rp = c_rot.shape_hints(F)
+    u.contract_fns.insert(0, c_rot.contracts(rh, angle_kind))
+    c_rot.select_c06(u)
+    hints, polys = c_conv.shape_hints(F)
+    u.contract_fns.insert(0, c_conv.contracts(hints, angle_kind))
+    c_conv.select(u)
+    u.contract_fns.insert(0, c_metric.contracts)
+    c_metric.select(u)
+    u.contract_fns.insert(0, c_arc.contracts)
+    c_arc.select(u)
+    return lib, F
+
+
+def unit_C17(src):
+    """every by-value / by-reference / compound-assignment expansion of every operator carries the same postcondition"""
+    from extract import OP_TRAITS
+    u = Unit('C17', src, 'R')
+    lib, F = complete_base(u, 'Rad')
+    own = lambda im, f: im is not None and trait_name_of(im) in OP_TRAITS and im.module in ('vector', 'point', 'matrix', 'quaternion', 'angle', 'rotation')
+    u.assume_pred = lambda im, f: not own(im, f)
+    return u
+
+
 def unit_C06(src, angle_kind='Rad'):
     u = Unit('C06' + ('' if angle_kind == 'Rad' else 'deg'), src, 'R')
     lib, F = full_base(u, angle_kind)
@@ -213,7 +243,9 @@ def unit_conv(src, prop, angle_kind='Rad'):
     c_conv.select(u)
     if prop == 'C05':
         own = lambda im, f: im is not None and trait_name_of(im) == 'From' and f.name == 'from' and 'Euler' not in im.header and (
-            'Quaternion' in im.header) or (im is not None and f.name == 'from_quaternion')
+            'Quaternion' in im.header) or (im is not None and f.name == 'from_quaternion') or (
+            im is not None and im.module == 'rotation' and 'Basis3' in im.header and trait_name_of(im) in ('Mul', 'AsRef', 'From', 'One', 'Rotation')
+            and f.name in ('mul', 'as_ref', 'from', 'one', 'rotate_vector'))
     else:
         own = lambda im, f: im is not None and ('Euler' in im.header)
     u.assume_pred = lambda im, f: not own(im, f)
@@ -432,7 +464,7 @@ def build_C03(src, tier):
     return [unit_C03(src, 'R')]
 
 
-UNITS = {'C09': lambda src, tier: [unit_C09(src, 'q'), unit_C09(src, 'b3'), unit_C09(src, 'b2'), unit_C09i(src)], 'C15': lambda src, tier: [unit_arc(src, 'C15')], 'C14': lambda src, tier: [unit_arc(src, 'C14')], 'C18': lambda src, tier: [unit_C18(src)], 'C11': lambda src, tier: [unit_C11(src)], 'C10': lambda src, tier: [unit_C10(src, 'Rad'), unit_C10(src, 'Deg')], 'C08': lambda src, tier: [unit_C08(src, 'q'), unit_C08(src, 'b3'), unit_C08(src, 'b2')], 'C05': lambda src, tier: [unit_conv(src, 'C05', 'Rad')], 'C07': lambda src, tier: [unit_conv(src, 'C07', 'Rad'), unit_conv(src, 'C07', 'Deg')], 'C06': lambda src, tier: [unit_C06(src, 'Rad'), unit_C06(src, 'Deg')], 'C13': lambda src, tier: [unit_C13(src, 'R')], 'C04': lambda src, tier: [unit_C04(src, 'R')], 'C02': lambda src, tier: [unit_C02(src, 'R'), unit_C02t(src)], 'C01': lambda src, tier: [unit_C01(src, 'R'), unit_C01t(src, 'R')], 'C03': build_C03, 'C12': lambda src, tier: [unit_C12(src, 'R')]}
+UNITS = {'C17': lambda src, tier: [unit_C17(src)], 'C09': lambda src, tier: [unit_C09(src, 'q'), unit_C09(src, 'b3'), unit_C09(src, 'b2'), unit_C09i(src)], 'C15': lambda src, tier: [unit_arc(src, 'C15')], 'C14': lambda src, tier: [unit_arc(src, 'C14')], 'C18': lambda src, tier: [unit_C18(src)], 'C11': lambda src, tier: [unit_C11(src)], 'C10': lambda src, tier: [unit_C10(src, 'Rad'), unit_C10(src, 'Deg')], 'C08': lambda src, tier: [unit_C08(src, 'q'), unit_C08(src, 'b3'), unit_C08(src, 'b2')], 'C05': lambda src, tier: [unit_conv(src, 'C05', 'Rad')], 'C07': lambda src, tier: [unit_conv(src, 'C07', 'Rad'), unit_conv(src, 'C07', 'Deg')], 'C06': lambda src, tier: [unit_C06(src, 'Rad'), unit_C06(src, 'Deg')], 'C13': lambda src, tier: [unit_C13(src, 'R')], 'C04': lambda src, tier: [unit_C04(src, 'R')], 'C02': lambda src, tier: [unit_C02(src, 'R'), unit_C02t(src)], 'C01': lambda src, tier: [unit_C01(src, 'R'), unit_C01t(src, 'R')], 'C03': build_C03, 'C12': lambda src, tier: [unit_C12(src, 'R')]}
 import kani_driver
 KANI = kani_driver.GROUPS
 from meta import META
